@@ -1137,6 +1137,14 @@ class World(object):
                 y = ~x
             elif how == 'flatten':
                 y = x.flatten() if np.asarray(x.val).ndim > 0 else x.deepcopy()
+            elif how == 'like_kw':
+                # (the pinned constructor builds a half-made register from such a cycle - no property
+                #  covers that; all that is asked here is that the register is not the ORIGINAL)
+                y = Fxp(0, like=x)
+            elif how == 'like_method':
+                y = Fxp(0, bool(x.signed), x.n_word, x.n_frac).like(x)
+            elif how == 'getitem':
+                y = x[0] if np.asarray(x.val).ndim > 0 else Fxp(0, like=x)
             else:
                 y = fxf.fxp_like(x, 0)
             self.bump('accumulator_copied')
@@ -1582,11 +1590,21 @@ class World(object):
         ao = self.obj(a)
         st.kind = 'derive'
         st.srcs = [a]
-        reg = ao.config.array_op_out
-        self.plan_register(st, reg)
         # negative / absolute / square and the statistics are arithmetic on the operand: their result
         # carries the operand's inaccuracy like any other arithmetic result (floor and sign are not judged)
         prop = [a] if op['f'] in ('negative', 'absolute', 'square', 'mean', 'std', 'var') else []
+        b2 = None
+        first = ao
+        if op['f'] in ('maximum', 'minimum', 'fmod'):
+            # two-operand functions served by the same generic wrapper
+            b2 = self.ref(op.get('b', 0), lambda o: np.asarray(o.val).shape in ((), np.asarray(ao.val).shape))
+            st.srcs = [a, b2]
+            prop = [a, b2]
+            if op.get('swap'):
+                first = self.obj(b2)
+        # (NumPy hands the call to the first Fxp argument: its configuration names the register)
+        reg = first.config.array_op_out
+        self.plan_register(st, reg)
         st.store = Store('dest' if st.dest is not None else 'new', route='npfunc', judge_cb=False,
                          judge_flags=False, prop=prop, arith=op['f'])
         st.extra['arith_route'] = 'np'
@@ -1595,8 +1613,13 @@ class World(object):
             x = getattr(self.obj(a), op['f'])()
         else:
             f = {'negative': np.negative, 'absolute': np.absolute, 'square': np.square,
-                 'floor': np.floor, 'sign': np.sign, 'mean': np.mean, 'std': np.std, 'var': np.var}[op['f']]
-            x = f(self.obj(a))
+                 'floor': np.floor, 'sign': np.sign, 'mean': np.mean, 'std': np.std, 'var': np.var,
+                 'maximum': np.maximum, 'minimum': np.minimum, 'fmod': np.fmod}[op['f']]
+            if b2 is not None:
+                pair = (self.obj(a), self.obj(b2)) if not op.get('swap') else (self.obj(b2), self.obj(a))
+                x = f(*pair)
+            else:
+                x = f(self.obj(a))
         k = self.finish_new(st, x, origin='npfunc')
         self.register_written(st)
 
